@@ -8,6 +8,7 @@ import (
 	"strings"
 	"sync"
 	"sync/atomic"
+	"time"
 
 	"verifharness/internal/core"
 	"verifharness/internal/fixture"
@@ -18,7 +19,7 @@ import (
 func init() {
 	core.Register(&core.Simple{
 		Id: "C13", Lvl: "exploration", Quick: 200, Thorough: 5000, PerBatch: 50, Width: 16, Timeout: 1500,
-		RuleText: "roster histories: 20-45 steps over 3-8 clients (connect with either login flow, agreed with options/auto-reply, name/icon/option changes, privilege changes of a logged-in user's account by an administrator, disconnects, private messages); every client folds the user-change/user-left notifications it receives into the list it fetched; after every step at quiescence each folded roster must equal a fresh user-list reply restricted to users that completed login, and the reference model (id, name, icon, flags); private messages must reach exactly the addressed id and honour refuse flag / automatic reply. One long history per run keeps K clients logged in while more than 70,000 further connections log in and leave on the same server (the 16-bit id space wraps): at checkpoints all live ids must be pairwise distinct, each live client found under exactly one id, and a private message to each long-lived id must reach only its holder. distinct = multiset of step kinds (histories) / checkpoint (long history); non-trivial = history has a privilege or name change after others fetched their lists",
+		RuleText: "roster histories: 20-45 steps over 3-8 clients (connect with either login flow, agreed with options/auto-reply, name/icon/option changes, privilege changes of a logged-in user's account by an administrator, disconnects, private messages); every client folds the user-change/user-left notifications it receives into the list it fetched; after every step at quiescence each folded roster must equal a fresh user-list reply restricted to users that completed login, and the reference model (id, name, icon, flags); private messages must reach exactly the addressed id and honour refuse flag / automatic reply. One long history per run keeps K clients logged in while more than 70,000 further connections log in and leave on the same server (the 16-bit id space wraps): at checkpoints all live ids must be pairwise distinct, each live client found under exactly one id, and a private message to each long-lived id must reach only its holder. distinct = multiset of step kinds (histories) / checkpoint (long history); a stress batch lets logins (with an immediate list fetch) race disconnects while a hook-injected delay at the outbox holds user-left notifications in flight, then compares every survivor's folded roster with a fresh list. non-trivial = history has a privilege or name change after others fetched their lists",
 		Case: runCase,
 		Extra: func(tier string, seed int64) []core.Batch {
 			n := 70000
@@ -26,9 +27,20 @@ func init() {
 				n = 300000
 			}
 			a, _ := json.Marshal(map[string]int{"connections": n})
-			return []core.Batch{{Name: "long-history", Args: a, Timeout: 2400}}
+			runs := 40
+			if tier == "thorough" {
+				runs = 600
+			}
+			sa, _ := json.Marshal(map[string]int{"runs": runs})
+			return []core.Batch{{Name: "long-history", Args: a, Timeout: 2400}, {Name: "stress", Args: sa, Timeout: 1200}}
 		},
-		RunExtra: runLong,
+		RunExtra: func(b core.Batch, em *core.Emitter) {
+			if b.Name == "stress" {
+				runStress(b, em)
+				return
+			}
+			runLong(b, em)
+		},
 	})
 }
 
@@ -750,5 +762,263 @@ func runLong(b core.Batch, em *core.Emitter) {
 			// a second class so that the run is not judged on a single case
 			em.Emit(core.Result{Case: id + "/registry", Class: "long-history-registry", Verdict: v, Obs: map[string]int{"registry_checks": checkpoints}})
 		}
+	})
+}
+
+// ---------------------------------------------------------------------------------------------
+// stress: logins racing disconnects, with user-left notifications held in flight by a hook delay
+
+func runStress(b core.Batch, em *core.Emitter) {
+	var a struct {
+		Runs int `json:"runs"`
+	}
+	json.Unmarshal(b.Args, &a)
+	core.Parallel(a.Runs, 8, func(run int) {
+		id := fmt.Sprintf("C13/stress/%d", run)
+		core.SafeCase(em, id, func() {
+			em.Begin(id, nil)
+			r := core.NewRand(b.Seed, uint64(run), 0x13)
+			srv, err := fixture.New(fixture.Options{})
+			if err != nil {
+				em.Emit(core.Result{Case: id, Verdict: core.Inconclusive, Msg: err.Error()})
+				return
+			}
+			defer srv.Close()
+			delay := time.Duration(50+r.Intn(400)) * time.Microsecond
+			var dqMu sync.Mutex
+			dequeued := map[[2]byte][]int{} // per client id: transaction types in the order processOutbox dequeued them
+			srv.OnEvent = func(name string, cid [2]byte, x uint32) {
+				if name != "outbox.dequeued" || x == fixture.MarkerType {
+					return
+				}
+				dqMu.Lock()
+				dequeued[cid] = append(dequeued[cid], int(x))
+				dqMu.Unlock()
+				if x == 302 {
+					time.Sleep(delay)
+				}
+			}
+			type poll struct {
+				id uint32
+				n  int // transactions this client had received when it sent the request
+			}
+			type sc struct {
+				cl    *refclient.Client
+				name  string
+				polls []poll
+			}
+			var mu sync.Mutex
+			var all []*sc
+			login := func(name string, k int) *sc {
+				cl, err := refclient.LoginAs(srv, fmt.Sprintf("10.13.77.%d:%d", 1+k%250, 1000+k), "guest", "", name)
+				if err != nil {
+					return nil
+				}
+				cl.Send(300) // fetch the list right away, as clients do
+				s := &sc{cl: cl, name: name}
+				mu.Lock()
+				all = append(all, s)
+				mu.Unlock()
+				return s
+			}
+			n0 := 4 + r.Intn(5)
+			var first []*sc
+			for i := 0; i < n0; i++ {
+				if s := login(fmt.Sprintf("base%d", i), i); s != nil {
+					first = append(first, s)
+				}
+			}
+			srv.Quiesce(refclient.Watchdog)
+			rounds := 3 + r.Intn(4)
+			gone := map[*sc]bool{}
+			k := 100
+			for round := 0; round < rounds; round++ {
+				var wg sync.WaitGroup
+				// some leave …
+				mu.Lock()
+				var leavers []*sc
+				for _, s := range all {
+					if !gone[s] && len(leavers) < 1+r.Intn(3) && r.Bool() {
+						leavers = append(leavers, s)
+						gone[s] = true
+					}
+				}
+				mu.Unlock()
+				for _, s := range leavers {
+					wg.Add(1)
+					go func(s *sc) { defer wg.Done(); s.cl.Hangup() }(s)
+				}
+				// … the others keep refreshing their user list, remembering what they had seen when they asked …
+				mu.Lock()
+				var pollers []*sc
+				for _, s := range all {
+					if !gone[s] {
+						pollers = append(pollers, s)
+					}
+				}
+				mu.Unlock()
+				for pi, s := range pollers {
+					wg.Add(1)
+					go func(s *sc, d time.Duration) {
+						defer wg.Done()
+						for q := 0; q < 6; q++ {
+							time.Sleep(d)
+							n := len(s.cl.Inbox())
+							s.polls = append(s.polls, poll{s.cl.Send(300), n})
+						}
+					}(s, time.Duration(100+((pi*37+round*11)%400))*time.Microsecond)
+				}
+				// … while others arrive
+				for j := 0; j < 2+r.Intn(4); j++ {
+					k++
+					wg.Add(1)
+					go func(k int, d time.Duration) {
+						defer wg.Done()
+						time.Sleep(d)
+						login(fmt.Sprintf("new%d", k), k)
+					}(k, time.Duration(r.Intn(600))*time.Microsecond)
+				}
+				wg.Wait()
+			}
+			if !srv.Quiesce(refclient.Watchdog) {
+				em.Emit(core.Result{Case: id, Verdict: core.Inconclusive, Msg: "no quiescence"})
+				return
+			}
+			res := core.Result{Case: id, Class: fmt.Sprintf("stress/rounds%d", rounds), Verdict: core.Held, Obs: map[string]int{"stress_runs": 1},
+				Sample: map[string]any{"base_clients": n0, "rounds": rounds, "outbox_delay_us": delay.Microseconds()}}
+			mu.Lock()
+			defer mu.Unlock()
+			idOf := map[any][2]byte{}
+			for _, cc := range srv.S.ClientMgr.List() {
+				idOf[cc.Connection] = cc.ID
+			}
+			for _, s := range all {
+				if gone[s] || res.Verdict != core.Held {
+					continue
+				}
+				// did this client receive its transactions in the order the server queued them?
+				reordered := ""
+				if cid, ok := idOf[any(s.cl.Conn)]; ok {
+					dqMu.Lock()
+					want := append([]int{}, dequeued[cid]...)
+					dqMu.Unlock()
+					var got []int
+					for _, t := range s.cl.Inbox() {
+						ty := int(t.Type)
+						if t.IsReply == 1 {
+							ty = 0
+						}
+						got = append(got, ty)
+					}
+					for i := 0; i < len(got) && i < len(want); i++ {
+						if got[i] != want[i] {
+							reordered = fmt.Sprintf("position %d: queued order has type %d, arrival order has type %d (queued %v, arrived %v)", i, want[i], got[i], want, got)
+							res.Obs["clients_with_reordered_delivery"]++
+							break
+						}
+					}
+				}
+				// causality: a list requested after this client had already received user-left(U) must not contain U
+				inbox := s.cl.Inbox()
+				for _, pl := range s.polls {
+					left := map[uint16]bool{}
+					for _, t := range inbox[:min(pl.n, len(inbox))] {
+						if idb, _ := t.Get(103); len(idb) == 2 {
+							uid := uint16(idb[0])<<8 | uint16(idb[1])
+							if t.Type == 302 {
+								left[uid] = true
+							} else if t.Type == 301 {
+								delete(left, uid)
+							}
+						}
+					}
+					for _, t := range inbox {
+						if t.IsReply == 1 && t.ID == pl.id {
+							us, _ := refclient.UserList(t)
+							for _, u := range us {
+								if left[u.ID] {
+									res.Verdict, res.Key = core.Violated, "C13/stress/listed-after-left-notice"
+									res.Msg = fmt.Sprintf("client %q had already received the user-left notice for user %d when it requested the user list, yet the reply still lists that user (%q)", s.name, u.ID, u.Name)
+								}
+							}
+							res.Obs["stress_list_polls"]++
+						}
+					}
+				}
+				if res.Verdict != core.Held {
+					break
+				}
+				// fold the whole inbox in arrival order: list replies replace, notifications patch
+				roster := map[uint16]string{}
+				lastNote := map[uint16]int{} // arrival index of the last notification about a user
+				lastList := -1
+				for i, t := range s.cl.Inbox() {
+					switch {
+					case t.IsReply == 1 && len(t.GetAll(300)) > 0:
+						us, _ := refclient.UserList(t)
+						roster = map[uint16]string{}
+						for _, u := range us {
+							roster[u.ID] = string(u.Name)
+						}
+						lastList = i
+					case t.Type == 301:
+						if idb, _ := t.Get(103); len(idb) == 2 {
+							nm, _ := t.Get(102)
+							uid := uint16(idb[0])<<8 | uint16(idb[1])
+							roster[uid] = string(nm)
+							lastNote[uid] = i
+						}
+						res.Obs["stress_notifications"]++
+					case t.Type == 302:
+						if idb, _ := t.Get(103); len(idb) == 2 {
+							uid := uint16(idb[0])<<8 | uint16(idb[1])
+							delete(roster, uid)
+							lastNote[uid] = i
+						}
+						res.Obs["stress_notifications"]++
+					}
+				}
+				rep, ok := s.cl.Call(300)
+				if !ok {
+					res.Verdict, res.Msg = core.Inconclusive, "no user list"
+					break
+				}
+				us, _ := refclient.UserList(rep)
+				fresh := map[uint16]string{}
+				for _, u := range us {
+					fresh[u.ID] = string(u.Name)
+				}
+				var bad []uint16
+				for uid, nm := range roster {
+					if f, ok := fresh[uid]; !ok || f != nm {
+						bad = append(bad, uid)
+					}
+				}
+				for uid := range fresh {
+					if _, ok := roster[uid]; !ok {
+						bad = append(bad, uid)
+					}
+				}
+				for _, uid := range bad {
+					note, noted := lastNote[uid]
+					switch {
+					case reordered != "":
+						res.Verdict, res.Key = core.Violated, "C13/stress/roster-diverged-after-reordered-delivery"
+						res.Msg = fmt.Sprintf("client %q: folded roster %v differs from the server's list %v (user %d); the transactions addressed to this client were delivered in a different order than the server queued them: %s", s.name, roster, fresh, uid, reordered)
+					case noted && note < lastList:
+						res.Verdict, res.Key = core.Violated, "C13/stress/stale-list-reply-after-notification"
+						res.Msg = fmt.Sprintf("client %q: user %d is %q in the folded roster and %q on the server: the notification about that user's change was queued (arrival index %d) BEFORE a user-list reply (arrival index %d) that had been computed before the change — the stale list overwrote the newer information", s.name, uid, roster[uid], fresh[uid], note, lastList)
+					case !noted:
+						res.Verdict, res.Key = core.Violated, "C13/stress/never-notified"
+						res.Msg = fmt.Sprintf("client %q: user %d is %q in the folded roster (from the list it fetched) and %q on the server, and no user-change/user-left notification about that user was ever delivered to it", s.name, uid, roster[uid], fresh[uid])
+					default:
+						res.Verdict, res.Key = core.Violated, "C13/stress/roster-differs"
+						res.Msg = fmt.Sprintf("client %q: user %d is %q in the folded roster and %q on the server although the last notification about it arrived after the last list reply", s.name, uid, roster[uid], fresh[uid])
+					}
+				}
+				res.Obs["stress_roster_comparisons"]++
+			}
+			em.Emit(res)
+		})
 	})
 }
